@@ -1757,11 +1757,9 @@ func ReadTerm(vm *VM, streamOrAlias, out, options Term, k Cont, env *Env) *Promi
 	}
 
 	p := NewParser(vm, s)
-	defer func() {
-		_ = s.UnreadRune()
-	}()
-
 	t, err := p.Term()
+	// The parser has read one rune ahead. We have to put it back before the continuation reads from the stream.
+	_ = s.UnreadRune()
 	switch err {
 	case nil:
 		break
@@ -1916,9 +1914,7 @@ func PeekByte(vm *VM, streamOrAlias, inByte Term, k Cont, env *Env) *Promise {
 	}
 
 	b, err := s.ReadByte()
-	defer func() {
-		_ = s.UnreadByte()
-	}()
+	_ = s.UnreadByte() // Before the continuation reads from the stream.
 	switch err {
 	case nil:
 		return Unify(vm, inByte, Integer(b), k, env)
@@ -1954,9 +1950,7 @@ func PeekChar(vm *VM, streamOrAlias, char Term, k Cont, env *Env) *Promise {
 	}
 
 	r, _, err := s.ReadRune()
-	defer func() {
-		_ = s.UnreadRune()
-	}()
+	_ = s.UnreadRune() // Before the continuation reads from the stream.
 	switch err {
 	case nil:
 		if r == unicode.ReplacementChar {
